@@ -66,6 +66,14 @@ def run(ctx: core.Ctx):
             ctx.count()
             if got.shape != arg.shape or not np.allclose(got.ravel(), V, rtol=0, atol=TOL, equal_nan=True):
                 ctx.violation(f"{h}.hedge/formula/{form}", {"hedge": h}, "table", "differs", note="array call differs from elementwise values")
+            # a second call of the same shape on the same object (reversed argument): results must be independent arrays
+            first = got.copy()
+            again = np.asarray(hs[h].hedge(arg.ravel()[::-1].reshape(arg.shape).copy()), dtype=float)
+            ctx.count()
+            if not np.array_equal(got, first, equal_nan=True):
+                ctx.violation(f"{h}.hedge/result-aliased", {"hedge": h}, "unchanged by a later call", "modified", note="an earlier result array was overwritten by a later call of the same shape")
+            elif again.shape != arg.shape or not np.allclose(again.ravel(), V[::-1], rtol=0, atol=TOL, equal_nan=True):
+                ctx.violation(f"{h}.hedge/formula/second-{form}-call", {"hedge": h}, "table (reversed)", "differs")
         got = float(hs[h].hedge(math.nan))
         if h != "any" and not math.isnan(got):
             ctx.violation(f"{h}.hedge/nan", {"hedge": h, "x": "nan"}, "nan", got)
